@@ -205,6 +205,12 @@ def evaluate(case: Dict[str, Any], oracles: Sequence[str], nontrivial: Callable[
         res.cls("derived-" + case["derive"])
     if case.get("warm"):
         res.cls("warm-call-before")
+    if case.get("from_thread"):
+        res.cls("called-from-a-non-main-thread")
+    if case.get("log_debug"):
+        res.cls("debug-logging-on")
+    if case.get("warn_error"):
+        res.cls("warnings-are-errors")
     if case.get("early_exec"):
         res.cls("executor-created-before-reconfiguration")
     for s_ in all_stats:
@@ -413,6 +419,12 @@ def sched_case(
             case["build_mc"] = draw(st.integers(1, 5))
         if draw(st.booleans()):
             case["group_conf"] = True  # equal attributes -> one entry keyed by a tag shared by those sites
+    if gen.chance(draw, 0.1):
+        case["log_debug"] = True  # environment: tawazi's logging is on and a sink listens at DEBUG level
+    if gen.chance(draw, 0.1):
+        case["warn_error"] = True  # environment: warnings are errors while the DAG runs
+    if gen.chance(draw, 0.12):
+        case["from_thread"] = True  # environment: the call is made from a thread that is not the main thread
     if spawn_fail_rate and not case.get("failing") and gen.chance(draw, spawn_fail_rate):
         # fault at a point: the pool cannot start its k-th worker thread during the observed execution
         case["spawn_fail"] = draw(st.integers(0, max(0, case["mc"] - 1)))
